@@ -174,7 +174,7 @@ func (c *CopyCommand) copyOneFile(srcRelPath, destRelPath string, tow io.Writer)
 		return nil
 	}
 
-	if err := updateFileDataWithPointsList(destDB, srcPlDif, now); err != nil {
+	if err := copyDifferentPoints(destDB, srcTsList, srcPlDif, c.CopyNaN, c.From, until, now); err != nil {
 		return err
 	}
 
@@ -213,4 +213,28 @@ func openOrCreateCopyDestFile(filename string, srcHeader *whispertool.Header) (*
 		}
 	}
 	return destDB, nil
+}
+
+// copyDifferentPoints writes the points of srcPlDif to destDB archive by archive.
+// Updating an archive propagates into the coarser ones, so the difference to the
+// source is computed again for each coarser archive just before it is written;
+// srcPlDif is updated to the points actually written.
+func copyDifferentPoints(destDB *whispertool.Whisper, srcTsList TimeSeriesList, srcPlDif PointsList, copyNaN bool, from, until, now whispertool.Timestamp) error {
+	for archiveID := range destDB.ArchiveInfoList() {
+		if archiveID > 0 && srcTsList[archiveID] != nil {
+			destTs, err := destDB.FetchFromArchive(archiveID, from, until, now)
+			if err != nil {
+				return err
+			}
+			if copyNaN {
+				srcPlDif[archiveID], _ = srcTsList[archiveID].DiffPoints(destTs)
+			} else {
+				srcPlDif[archiveID], _ = srcTsList[archiveID].DiffPointsExcludeSrcNaN(destTs)
+			}
+		}
+		if err := destDB.UpdatePointsForArchive(srcPlDif[archiveID], archiveID, now); err != nil {
+			return err
+		}
+	}
+	return nil
 }
